@@ -403,6 +403,9 @@ static int history_get_count(LHAPM2Decoder *decoder, unsigned int code)
 
 	if (code < 15) {
 		return (int) code + 2;
+	} else if (code - 15 >= sizeof(copy_decode) / sizeof(*copy_decode)) {
+		// Not a valid copy code (corrupt code table).
+		return -1;
 	} else {
 		return decode_variable_length(&decoder->bit_stream_reader,
 		                              copy_decode, code - 15);
